@@ -39,15 +39,16 @@ type c01Cfg struct {
 	Hist int
 	Seed int64
 	Park bool // long delays at put.cond-write (inside the fragment lock) to queue competitors
+	RR   bool // read repair enabled
 }
 
 func (c c01Cfg) spec() string {
-	return fmt.Sprintf("N=%d R=%d P=%d ts=%d bg=%v hist=%d seed=%d park=%v", c.N, c.R, c.P, c.TS, c.BG, c.Hist, c.Seed, c.Park)
+	return fmt.Sprintf("N=%d R=%d P=%d ts=%d bg=%v hist=%d seed=%d park=%v rr=%v", c.N, c.R, c.P, c.TS, c.BG, c.Hist, c.Seed, c.Park, c.RR)
 }
 
 func parseC01Cfg(s string) c01Cfg {
 	var c c01Cfg
-	fmt.Sscanf(s, "N=%d R=%d P=%d ts=%d bg=%t hist=%d seed=%d park=%t", &c.N, &c.R, &c.P, &c.TS, &c.BG, &c.Hist, &c.Seed, &c.Park)
+	fmt.Sscanf(s, "N=%d R=%d P=%d ts=%d bg=%t hist=%d seed=%d park=%t rr=%t", &c.N, &c.R, &c.P, &c.TS, &c.BG, &c.Hist, &c.Seed, &c.Park, &c.RR)
 	return c
 }
 
@@ -139,7 +140,7 @@ func runKVHistory(c *cluster.Cluster, dmap string, keys []string, clients int, o
 
 func c01Child(ctx *runCtx, spec string) {
 	cfg := parseC01Cfg(spec)
-	ccfg := cluster.Config{Replicas: cfg.R, Partitions: cfg.P, TableSize: cfg.TS, EvictionWorkers: 2}
+	ccfg := cluster.Config{Replicas: cfg.R, Partitions: cfg.P, TableSize: cfg.TS, EvictionWorkers: 2, ReadRepair: cfg.RR}
 	if cfg.BG {
 		ccfg.CompactionInterval = 20 * time.Millisecond
 		ccfg.JanitorInterval = 20 * time.Millisecond
@@ -203,6 +204,18 @@ func c01Child(ctx *runCtx, spec string) {
 		}
 		if maxTables > 1 {
 			ctx.rep.Count("histories_with_multi_table_fragment", 1)
+		}
+		// Member-to-member requests are re-sent by the members' client library after its read timeout (3 s). On a
+		// starved machine an operation that took longer may have been executed twice; such a history says nothing.
+		var slowest time.Duration
+		for _, o := range ops {
+			if d := time.Duration(o.Ret - o.Call); d > slowest {
+				slowest = d
+			}
+		}
+		if slowest > 2500*time.Millisecond {
+			ctx.rep.Inconclusive(fmt.Sprintf("%s history %d: an operation took %v (starved machine): requests between members may have been re-sent", spec, h, slowest.Round(time.Millisecond)))
+			continue
 		}
 		if netErrs > 0 {
 			ctx.rep.Inconclusive(fmt.Sprintf("%s history %d: %d operations ended with a transport error", spec, h, netErrs))
@@ -297,7 +310,7 @@ func c01Configs(tier string, seed int64) []c01Cfg {
 				}
 				i++
 				bg := i%2 == 0
-				c := c01Cfg{N: x.n, R: x.r, P: p, TS: ts, BG: bg, Seed: seed*10000 + int64(i), Park: i%3 == 0}
+				c := c01Cfg{N: x.n, R: x.r, P: p, TS: ts, BG: bg, Seed: seed*10000 + int64(i), Park: i%3 == 0, RR: x.r > 1 && (i/2)%2 == 0}
 				cs = append(cs, c)
 			}
 		}
